@@ -191,6 +191,7 @@ def build_pool() -> dict:
         "ordersens": ordersens[:80],
         "multi": [multi[i] for i in range(0, len(multi), max(1, len(multi) // 60))][:70],
         "single": [single[i] for i in range(0, len(single), max(1, len(single) // 80))][:90],
+        "many": [single[i] for i in range(3, len(single), max(1, len(single) // 700))][:640],
         "missing": [["DE", "01010101"], ["XX", "1"], ["DE", ""], ["", ""], ["FR", "99999"],
                     ["GB", "ZZZZ"], ["CY", ""], ["GR", ""]],
     }
@@ -212,8 +213,10 @@ def build_pool() -> dict:
     bkeys = sorted(bic_index)
     reg_bics = [bkeys[i] for i in range(0, len(bkeys), max(1, len(bkeys) // 120))][:130]
     pool["bics"] = {
+        "by_country": {cc: [f"NLPR{cc}PR", f"ABCD{cc}2AXXX", f"12AB{cc}2A"] for cc in countries},
         "registry": reg_bics,
-        "valid": ["GENODEM1GLS", "MARKDEF1100", "DEUTDEFF", "BNPAFRPPXXX", "1234DEWW", "AAAADE00", "ABCDUS12345"],
+        "valid": ["GENODEM1GLS", "MARKDEF1100", "DEUTDEFF", "BNPAFRPPXXX", "1234DEWW", "AAAADE00", "ABCDUS12345",
+                  "9ABCFRPP", "A1B2GB2L", "1234DEWWXXX", "0000NL2A"],
         "odd": ["", "GENODEM1GL", "GENODEM1GLSX", "GENOXXM1GLS", "geno de m1 gls", "1234DEWWXXX",
                 "GENODEM1GLS\n", "GENÖDEM1GLS", "GENODEM1G S", "AAAAZZ00", "DEUTDEFF500EXTRA",
                 "12345678", "ABCD1234", "٣ENODEM1GLS"],
